@@ -3,7 +3,7 @@
    unrolling of the stripped circuit up to output marks and step-0 constants (`weaker`). *)
 From stdpp Require Import strings gmap sets fin_sets pretty.
 From CG Require Import Proofs.UnrollSteps Proofs.ComposeProofs.
-From CG Require Import Base.Compose Base.Oracle Model.Compose6 Model.Unroll Model.Lint Proofs.AcyclicUnrollProofs Proofs.UnrollProofs Proofs.LintProofs.
+From CG Require Import Base.Compose Base.Oracle Model.Compose6 Model.Unroll Model.Lint Proofs.AcyclicUnrollProofs Proofs.UnrollProofs Proofs.LintProofs Proofs.UnrollLint.
 Open Scope string_scope.
 
 Definition inputs_undriven (c : circuit) : Prop := ∀ m info, c !! m = Some info → n_ty info = Input → n_fi info = ∅.
@@ -438,4 +438,39 @@ Proof.
   split; [apply unroll_iomap_dom|]. intros w Hw. cbv zeta. intros o t Ho Ht. split; [by apply unroll_iomap_lookup|].
   apply (seq_result_simulates (c_g CS) n sio prefix (c_g U) w); try done; [apply Hnm|].
   rewrite Forall_forall in Hs1 |- *. intros kv Hkv. destruct (Hs1 kv Hkv) as [H1 H2]. split; [|done]. unfold io_of. set_solver.
+Qed.
+
+(* ---------- the result of unroll is lint-clean ---------- *)
+Lemma has_dot_pnat t : has_dot (pnat t) = false.
+Proof. apply has_dot_pretty_N. Qed.
+Lemma has_dot_io_name io prefix t : has_dot (io_name io prefix t) = has_dot io || has_dot prefix.
+Proof. unfold io_name. rewrite !has_dot_app, has_dot_pnat. simpl. by rewrite !orb_false_r. Qed.
+Lemma has_dot_inst_name t : has_dot (inst_name t) = false.
+Proof. unfold inst_name. rewrite has_dot_app, has_dot_pnat. done. Qed.
+
+Theorem unroll_closed_lint_clean C n sio prefix nm :
+  lint_clean C → c_bbs C = ∅ → startpoints (c_g C) = inputs (c_g C) → has_dot prefix = false →
+  NoDup (unroll_nodes (c_g C) n sio prefix).*1 →
+  lint_clean {| c_name := nm; c_g := unroll_closed (c_g C) n sio prefix; c_bbs := ∅ |}.
+Proof.
+  intros Hl Hb Hsp Hpre Hnd.
+  assert (gen_ok : tables_ok gen_tables = true) by (vm_compute; reflexivity).
+  set (c := c_g C) in *.
+  assert (Hnode : ∀ m info, c !! m = Some info → has_dot m = false ∧ wf_node info).
+  { intros m info Hm. apply (lint_clean_node C m info Hl Hb Hm). intros Hbo.
+    assert (m ∈ startpoints c) as Hs. { apply elem_of_of_type. exists info. split; [done|]. cbv beta. rewrite Hbo. reflexivity. }
+    rewrite Hsp in Hs. apply elem_of_inputs in Hs as (i & Hi & Hty). fold c in Hi. rewrite Hm in Hi. injection Hi as <-. congruence. }
+  assert (Hdotd : ∀ m, m ∈ dom c → has_dot m = false).
+  { intros m [info Hm]%elem_of_dom. by apply (Hnode m info). }
+  assert (Hio_dom : ∀ io, io ∈ io_of c → io ∈ dom c).
+  { unfold io_of. intros io [(i & Hi & _)%elem_of_inputs|(i & Hi & _)%elem_of_outputs]%elem_of_union; apply elem_of_dom; eauto. }
+  apply (lint_ok_iff gen_tables gen_ok). intros [(x & j & Hx & V)|(inst & d & Hd & _)]; [|simpl in Hd; by rewrite lookup_empty in Hd].
+  simpl in Hx. unfold unroll_closed in Hx. apply elem_of_list_to_map in Hx; [|done]. revert V. apply wf_node_ok.
+  - apply in_unroll_nodes_inv in Hx as (t & Ht & [(io & Hio & -> & ->)|(m & info & Hm & -> & ->)]).
+    + rewrite has_dot_io_name, Hpre, (Hdotd io) by by apply Hio_dom. done.
+    + rewrite has_dot_pre, has_dot_inst_name. simpl. by apply (Hnode m info).
+  - apply in_unroll_nodes_inv in Hx as (t & Ht & [(io & Hio & -> & ->)|(m & info & Hm & -> & ->)]).
+    + unfold io_node. case_bool_decide; [|apply wf_node_buf1].
+      destruct (state_src sio io) as [k|]; [destruct t|]; try apply wf_node_input. apply wf_node_buf1.
+    + unfold ucopy_info. case_bool_decide; [apply wf_node_buf1|]. apply wf_node_map. by apply (Hnode m info).
 Qed.
